@@ -266,6 +266,10 @@ func C08(c *core.Ctx) {
 
 	// R4: blind fields
 	blindFields(c, "C08-R4")
+
+	// R5: the schema member of the document object
+	c.Rule("C08-R5", "schema.Object keeps the document's own $schema: unmarshalling assigns it only from the input bytes, marshalling inserts it", 2)
+	schemaObjectRule(c, "C08-R5")
 }
 
 // mustPassBeforeSuccess checks that the call has been executed on every path to
@@ -295,4 +299,84 @@ func mustPassBeforeSuccess(p *core.Program, ff *core.FuncFlow, call *ast.CallExp
 		}
 	}
 	return ""
+}
+
+// schemaObjectRule: in schema.(*Object).UnmarshalJSON every assignment to the
+// Schema field takes its value from a call on the input bytes; the payload type
+// is derived from that field; MarshalJSON inserts the Schema field.
+func schemaObjectRule(c *core.Ctx, rule string) {
+	p := c.P
+	fd := p.Func("schema", "Object", "UnmarshalJSON")
+	if fd == nil {
+		c.Ob(rule, "UNRESOLVED:schema.Object.UnmarshalJSON", token.NoPos, false, "method not found")
+		return
+	}
+	info := fd.Pkg.TypesInfo
+	recv := recvVar(fd)
+	data := fd.Obj.Type().(*types.Signature).Params().At(0)
+	n := 0
+	okAll := true
+	ast.Inspect(fd.Decl.Body, func(m ast.Node) bool {
+		as, ok := m.(*ast.AssignStmt)
+		if !ok {
+			return true
+		}
+		for i, l := range as.Lhs {
+			if !core.IsFieldOfVar(info, l, recv, "Schema") {
+				continue
+			}
+			n++
+			rhs := as.Rhs[0]
+			if len(as.Rhs) == len(as.Lhs) {
+				rhs = as.Rhs[i]
+			}
+			fromData := false
+			if call, ok := ast.Unparen(rhs).(*ast.CallExpr); ok {
+				for _, a := range call.Args {
+					if core.VarOf(info, a) == data {
+						fromData = true
+					}
+				}
+			}
+			if !fromData {
+				okAll = false
+				c.Ob(rule, fmt.Sprintf("%s#schema-store%d", fd.Name(), n), as.Pos(), false,
+					"the object's Schema is assigned from something other than the input bytes: the document's own $schema member is rewritten on load, so an edited $schema can go unnoticed by the digest")
+			}
+		}
+		return true
+	})
+	if n == 0 {
+		c.Ob(rule, fd.Name()+"#schema-store", fd.Decl.Pos(), false, "UnmarshalJSON never stores the Schema field")
+	} else if okAll {
+		c.Ob(rule, fd.Name()+"#schema-store", fd.Decl.Pos(), true, "")
+	}
+	// the payload instance comes from the stored schema
+	okPayload := false
+	ast.Inspect(fd.Decl.Body, func(m ast.Node) bool {
+		as, ok := m.(*ast.AssignStmt)
+		if !ok || len(as.Lhs) != 1 || !core.IsFieldOfVar(info, as.Lhs[0], recv, "payload") {
+			return true
+		}
+		if call, ok := ast.Unparen(as.Rhs[0]).(*ast.CallExpr); ok {
+			if core.IsFieldOfVar(info, core.RecvExpr(call), recv, "Schema") {
+				okPayload = true
+			}
+		}
+		return true
+	})
+	c.Ob(rule, fd.Name()+"#payload-from-schema", fd.Decl.Pos(), okPayload, "the payload instance is not derived from the stored Schema")
+	if mfd := p.Func("schema", "Object", "MarshalJSON"); mfd != nil {
+		minfo := mfd.Pkg.TypesInfo
+		mrecv := recvVar(mfd)
+		ok := false
+		for _, call := range core.CallsTo(minfo, mfd.Decl.Body, func(f *types.Func) bool { return core.IsFunc(f, core.ModPath+"/schema", "", "Insert") }) {
+			if len(call.Args) >= 1 && core.IsFieldOfVar(minfo, call.Args[0], mrecv, "Schema") {
+				ok = true
+			}
+		}
+		c.Ob(rule, mfd.Name()+"#inserts-schema", mfd.Decl.Pos(), ok, "MarshalJSON does not insert the object's Schema into the serialised payload")
+	} else {
+		c.Ob(rule, "UNRESOLVED:schema.Object.MarshalJSON", token.NoPos, false, "method not found")
+	}
 }
